@@ -21,11 +21,11 @@ import (
 type memInfo struct {
 	fn      *ssa.Function
 	paths   []string
-	in      []map[string]string          // per block: path -> version at block entry
-	out     []map[string]string          // per block: path -> version at block exit
+	in      []map[string]string                   // per block: path -> version at block entry
+	out     []map[string]string                   // per block: path -> version at block exit
 	at      map[ssa.Instruction]map[string]string // version map right BEFORE the instruction (only for loads, stores and calls)
-	storeOf map[string]*ssa.Store        // version id -> defining store
-	fieldOf map[string]string            // path -> "Struct.field" of its last component
+	storeOf map[string]*ssa.Store                 // version id -> defining store
+	fieldOf map[string]string                     // path -> "Struct.field" of its last component
 	w       *World
 }
 
